@@ -20,7 +20,7 @@ func init() {
 		Technique: "exhaustive enumeration of client message histories up to a depth bound over a 33-letter alphabet, replayed on a real server; every per-message reply and callback compared with a set-valued reference model of the extended protocol",
 		Rule:      "all histories of length <= d over the alphabet (statements \"\"/\"s\"/unknown \"u\", portals \"\"/\"p\"/\"u\"; parsers and handlers that succeed or fail); replies attributed per message by transport quiescence; distinct = distinct histories",
 		Assumptions: []string{
-			"not asserted (model forks): SQLSTATE/text of errors; reaction to oversized and unknown-type messages (error, optional ReadyForQuery, skipping or not); whether Close removes the name (C07); whether portals / the unnamed statement survive a Sync or simple Query",
+			"not asserted (model forks): SQLSTATE/text of errors; reaction to oversized and unknown-type messages (error, optional ReadyForQuery, skipping or not); the fate of portals bound to a statement that is closed afterwards; whether portals / the unnamed statement survive a Sync or simple Query",
 			"two-connection family: each connection is judged by its own model instance, so the skip-until-Sync state must be per connection",
 		},
 		Enumerate:        c06Enumerate,
@@ -148,9 +148,12 @@ func c06Enumerate(tier string, emit explore.Emit) {
 	add(full, fd, "full-alphabet", -1)
 	add(core, cd, "core16", fd)
 	add(errcore, ed, "errcore8", cd)
+	// names that are closed and used again (12 letters, not a subset of the families above beyond depth fd)
+	closeCore := xCloseCore
+	add(closeCore, cd, "close-core13", fd)
 	// two connections on one server, message granularity: the error / skipping state of one
 	// connection must not influence the other (each is judged by its own model instance)
-	two := []xletter{errcore[0], errcore[1], errcore[2], errcore[4], errcore[7], full[28]} // Parse ok, Parse #perr, Bind, Execute, Sync, Query(ok)
+	two := []xletter{errcore[0], errcore[1], errcore[2], errcore[4], errcore[7], xletterByName(full, "Query(ok)")} // Parse ok, Parse #perr, Bind, Execute, Sync, Query(ok)
 	td := 4
 	if tier == "thorough" {
 		td = 6
